@@ -427,16 +427,41 @@ UNBOUNDED_CONTRACTS = [
                         "and (len(new_chunks) == 0 or new_chunks[-1].c_prefix != cur_chunk.c_prefix)",
                  'havoc': {'new_chunks': ANYCHUNKS(), 'cur_chunk': CHUNK()}}},
              symlist_models=TEXT_MODELS, raises={}, modifies=[], max_paths=20000),
+    Contract(M, 'CHText.__getitem__', name='CHText.__getitem__/slice/colors/any_length', prop=PROP, spec_globals=G, level='top',
+             params={'self': T.one_of(ANYTEXT()),
+                     'index': T.one_of(*[_slice_spec(a, b) for a in (False, True) for b in (False, True)]),
+                     'p': T.int},
+             requires=["wf_any(self)"],
+             ensures={
+                 'colors': "not (0 <= p < result.scrlen) or color_at(result.chunks, p) == "
+                           "color_at(self.chunks, norm_lo(index.start, self.scrlen) + p)",
+             },
+             invariants={0: {
+                 'inv': "0 <= start_pos < self.scrlen and 0 <= chunk_id < len(self.chunks) and remain_len > 0 "
+                        "and remain_len == end_pos - start_pos - total(new_chunks) "
+                        "and start_pos + total(new_chunks) + len(cur_chunk.text) == offset(self.chunks, chunk_id + 1) "
+                        "and plain_upto(self.chunks, chunk_id + 1) == "
+                        "plain(self.chunks)[:start_pos] + plain(new_chunks) + cur_chunk.text "
+                        "and len(cur_chunk.text) > 0 and cur_chunk.c_prefix == self.chunks[chunk_id].c_prefix "
+                        "and wf_chunks_any(new_chunks) "
+                        "and (len(new_chunks) == 0 or new_chunks[-1].c_prefix != cur_chunk.c_prefix) "
+                        "and offset(self.chunks, chunk_id) <= start_pos + total(new_chunks) "
+                        "and (not (0 <= p < total(new_chunks)) or color_at(new_chunks, p) == "
+                        "color_at(self.chunks, start_pos + p))",
+                 'havoc': {'new_chunks': ANYCHUNKS(), 'cur_chunk': CHUNK()}}},
+             symlist_models=COLOR_MODELS, raises={}, modifies=[], max_paths=20000),
     Contract(M, 'CHText.fixed_len', name='CHText.fixed_len/any_length', prop=PROP, spec_globals=G, level='top',
-             params={'self': T.one_of(ANYTEXT()), 'desired_len': T.int},
+             params={'self': T.one_of(ANYTEXT()), 'desired_len': T.int, 'p': T.int},
              requires=["wf_any(self)", "desired_len >= 0"],
              ensures={
                  'len': "result.scrlen == desired_len",
                  'text': "plain(result.chunks) == (plain(self.chunks)[:desired_len] if desired_len <= self.scrlen "
                          "else plain(self.chunks) + ' ' * (desired_len - self.scrlen))",
                  'wf': "wf_any(result)",
+                 'colors': "not (0 <= p < desired_len) or color_at(result.chunks, p) == "
+                           "(color_at(self.chunks, p) if p < self.scrlen else '')",
              },
-             symlist_models=TEXT_MODELS, raises={}, modifies=[]),
+             symlist_models=COLOR_MODELS, raises={}, modifies=[]),
     Contract(M, 'CHText.__getitem__', name='CHText.__getitem__/index/any_length', prop=PROP, spec_globals=G, level='top',
              params={'self': T.one_of(ANYTEXT()), 'index': T.int},
              requires=["self.scrlen == total(self.chunks)"],
@@ -618,12 +643,20 @@ USES = {'CHText.__getitem__/index/any_length': ['CHText._get_chunk_pos/any_lengt
         'CHText.__iadd__/chunk/any_length': ['CHText._append_chunk/any_length'],
         'CHText.__iadd__/str/any_length': ['CHText._append_chunk/any_length'],
         'CHText.__iadd__/text/any_length': ['CHText._append_chunk/any_length'],
-        'CHText.fixed_len/any_length': ['CHText.__getitem__/slice/any_length', 'CHText.__add__/any_length', 'CHText.__len__/any_length'],
+        'CHText.__getitem__/slice/colors/any_length': ['CHText._get_chunk_pos/any_length', 'CHText.__init__/chunks/any_length',
+                                                       'CHText.__init__/any_length'],
+        'CHText.fixed_len/any_length': ['CHText.__getitem__/slice/any_length', 'CHText.__getitem__/slice/colors/any_length',
+                                        'CHText.__add__/any_length', 'CHText.__len__/any_length'],
         'CHText.__init__/any_length': _IADD_ANY, 'CHText.__init__/chunks/any_length': _IADD_ANY, 'CHText.__add__/any_length': _IADD_ANY + ['CHText.__init__/any_length'],
         'CHText.__radd__/any_length': ['CHText.__init__/any_length'],
         'CHText.join/any_length': _IADD_ANY + ['CHText.__init__/any_length']}
 ASSUMED_LIBRARY = []
 CANARIES = [
+    {'name': 'anylen_slice_takes_colour_of_first_chunk', 'module': M, 'function': 'CHText.__getitem__',
+     'verify': 'CHText.__getitem__/slice/colors/any_length',
+     'old': '            new_chunks.append(cur_chunk)\n', 'new': '            new_chunks.append(self.chunks[0].clone(cur_chunk.text))\n',
+     'combos': ['slice(int:None)'], 'unproved_is_enough': True,
+     'expect': 'C08.CHText.__getitem__/slice/colors/any_length.loop0.inv_preserved'},
     {'name': 'anylen_slice_one_char_too_many', 'module': M, 'function': 'CHText.__getitem__',
      'verify': 'CHText.__getitem__/slice/any_length',
      'old': 'new_chunks.append(cur_chunk.clone(cur_chunk.text[:remain_len]))',
